@@ -55,6 +55,13 @@ M = {
  "c05_int_le": ("rustzx-core/src/zx/controller.rs", "            < self.machine.specs().interrupt_length", "            <= self.machine.specs().interrupt_length"),
  "c05_frame_gt": ("rustzx-core/src/zx/controller.rs", "        if self.frame_clocks >= self.machine.specs().clocks_frame {", "        if self.frame_clocks > self.machine.specs().clocks_frame {"),
  "c05_passed_frames_double": ("rustzx-core/src/zx/controller.rs", "            self.new_frame();\n            self.passed_frames += 1;", "            self.new_frame();\n            self.passed_frames += 1 + (self.frame_clocks == 3) as usize;"),
+ # ---- C06
+ "c06_no_lock": ("rustzx-core/src/zx/controller.rs", "        if val & 0x20 != 0 {\n            self.paging_enabled = false;\n        }", "        if val & 0x20 != 0 && val & 0x40 != 0 {\n            self.paging_enabled = false;\n        }"),
+ "c06_bank_mask_3": ("rustzx-core/src/zx/controller.rs", "self.memory.remap(3, Page::Ram(val & 0x07));", "self.memory.remap(3, Page::Ram(val & 0x03));"),
+ "c06_rom_bit3": ("rustzx-core/src/zx/controller.rs", "self.memory.remap(0, Page::Rom((val >> 4) & 0x01));", "self.memory.remap(0, Page::Rom((val >> 3) & 0x01));"),
+ "c06_rom_writable": ("rustzx-core/src/zx/memory.rs", "        if let Page::Ram(page) = page {\n            self.ram[(page as usize) * PAGE_SIZE + offset] = value;\n        }", "        match page {\n            Page::Ram(page) => self.ram[(page as usize) * PAGE_SIZE + offset] = value,\n            Page::Rom(page) => self.rom[(page as usize) * PAGE_SIZE + offset] = value,\n        }"),
+ "c06_latch_mask": ("rustzx-core/src/zx/controller.rs", "} else if (port & 0x8002 == 0) && (self.machine == ZXMachine::Sinclair128K) {", "} else if (port & 0x8000 == 0) && (self.machine == ZXMachine::Sinclair128K) {"),
+ "c06_lock_before_apply": ("rustzx-core/src/zx/controller.rs", "        if !self.paging_enabled {\n            return;\n        }\n        self.current_port_7ffd = val;", "        if !self.paging_enabled || val & 0x20 != 0 && val & 0x07 == 0x06 {\n            self.paging_enabled = false;\n            return;\n        }\n        self.current_port_7ffd = val;"),
 }
 
 def main():
